@@ -6,6 +6,8 @@ prove_eq(hyps, lhs, rhs)    algebraic identities: value-level ite resolution und
                             normal form; fall back to a QF_NRA query with side axioms.
 Results: dict(status='proved'|'refuted'|'unknown', backend=..., time=..., model=...).
 """
+import os
+import subprocess
 import time
 import z3
 
@@ -39,6 +41,36 @@ def check_sat(hyps, timeout=10000):
     return s.check()
 
 
+CVC5 = '/usr/bin/cvc5'
+
+
+def cvc5_crosscheck(solver, tlimit_ms=10000):
+    """thorough tier: the query z3 found unsat is handed to cvc5 as SMT-LIB text.  Returns 'unsat' | 'sat' | 'noverdict'."""
+    if os.environ.get('VERIF_TIER') != 'thorough' or os.environ.get('VERIF_CVC5', '1') == '0' or not os.path.exists(CVC5):
+        return None
+    try:
+        text = '(set-logic ALL)\n' + solver.to_smt2()
+        p = subprocess.run([CVC5, '--lang=smt2', f'--tlimit={tlimit_ms}', '-'], input=text, capture_output=True, text=True,
+                           timeout=tlimit_ms / 1000 + 5)
+        out = p.stdout.strip().splitlines()
+        first = out[0].strip() if out else ''
+        return first if first in ('unsat', 'sat') else 'noverdict'
+    except Exception:
+        return 'noverdict'
+
+
+def _with_crosscheck(res, solver):
+    cc = cvc5_crosscheck(solver)
+    if cc is None:
+        return res
+    res['cvc5'] = cc
+    if cc == 'sat':
+        # the two back ends disagree: the obligation is undecided, never a violation and never counted as proved
+        res['status'] = 'unknown'
+        res['reason'] = 'z3 says unsat, cvc5 says sat: back ends disagree'
+    return res
+
+
 def prove_lia(hyps, goal, timeout=TIMEOUT_MS, want_model=True):
     t0 = time.time()
     s = z3.Solver()
@@ -48,7 +80,7 @@ def prove_lia(hyps, goal, timeout=TIMEOUT_MS, want_model=True):
     s.add(z3.Not(goal))
     r = s.check()
     if r == z3.unsat:
-        return _res('proved', 'z3', t0)
+        return _with_crosscheck(_res('proved', 'z3', t0), s)
     if r == z3.sat:
         return _res('refuted', 'z3', t0, model=model_dict(s.model()) if want_model else {})
     return _res('unknown', 'z3', t0, reason=s.reason_unknown())
@@ -195,7 +227,7 @@ def prove_eq(hyps, lhs, rhs, side=(), timeout=TIMEOUT_MS, int_hyps=None):
     s.add(d != 0)
     chk = s.check()
     if chk == z3.unsat:
-        return _res('proved', 'z3-nra', t0, atoms=len(table), ite_queries=res.queries)
+        return _with_crosscheck(_res('proved', 'z3-nra', t0, atoms=len(table), ite_queries=res.queries), s)
     if chk == z3.sat:
         m = s.model()
         md = model_dict(m)
